@@ -5,4 +5,5 @@ Import ListNotations.
 Definition cleanN (s : list N) : list N := clean s.
 Definition resolveN (base path : list N) : res := resolve_path base path.
 Definition find_mountN (cwd : list N) (keys : list (list N)) (path : list N) := find_mount cwd keys path.
-Extraction "paths_model.ml" cleanN resolveN find_mountN.
+Definition vrunN (keys : list (list N)) (cwd : list N) (ops : list vop) := vrun keys cwd ops.
+Extraction "paths_model.ml" cleanN resolveN find_mountN vrunN.
